@@ -22,7 +22,7 @@ type c14Scenario struct {
 }
 
 func runC14(h *H) {
-	h.Rule("2..8 sessions on one server with the in-memory backend, each running its own command list concurrently (no synchronisation between sessions) over mailboxes A, B, C pre-filled with messages: targeted scenarios (COPY and MOVE in opposite directions between two mailboxes, expunge during fetch, LIST/STATUS during RENAME/DELETE/CREATE, LIST/LSUB during SUBSCRIBE/UNSUBSCRIBE, IDLE ended while another session stores flags on more messages than the idle channel holds, ENVELOPE of a message and of its copies fetched concurrently, STORE during COPY) repeated many times, plus seeded random command mixes. Every command has a watchdog; a command that gets no tagged completion within the limit and a further grace period of 45 s is a stall (a deadlock never ends, a slow command does; mailboxes are re-created every 250 repetitions to keep them small): the histories of all sessions and a goroutine dump are the replay. With VERIF_RACE=1 the same run is executed by a -race build and race reports involving imapserver packages are violations. Non-trivial = at least two sessions ran a mutating command on a shared mailbox; distinct by scenario and seed.")
+	h.Rule("2..8 sessions on one server with the in-memory backend, each running its own command list concurrently (no synchronisation between sessions) over mailboxes A, B, C pre-filled with messages: targeted scenarios (COPY and MOVE in opposite directions between two mailboxes, expunge during fetch, LIST/STATUS during RENAME/DELETE/CREATE, LIST/LSUB during SUBSCRIBE/UNSUBSCRIBE, IDLE ended while another session stores flags on more messages than the idle channel holds, ENVELOPE of a message and of its copies fetched concurrently (also a targeted run: a fresh message with a long header is copied, then its envelope is fetched in both mailboxes at the same moment), STORE during COPY) repeated many times, plus seeded random command mixes. Every command has a watchdog; a command that gets no tagged completion within the limit and a further grace period of 45 s is a stall (a deadlock never ends, a slow command does; mailboxes are re-created every 250 repetitions to keep them small): the histories of all sessions and a goroutine dump are the replay. With VERIF_RACE=1 the same run is executed by a -race build and race reports involving imapserver packages are violations. Non-trivial = at least two sessions ran a mutating command on a shared mailbox; distinct by scenario and seed.")
 
 	var runScenario func(sc c14Scenario, src string)
 	runChunked := func(sc c14Scenario, src string) {
@@ -206,6 +206,72 @@ func runC14(h *H) {
 	for _, sc := range scenarios {
 		runChunked(sc, "targeted")
 	}
+	// targeted: a freshly appended message is copied to another mailbox, then its envelope is
+	// fetched in both mailboxes at the same moment (whatever a message and its copies share must
+	// not be written under two different mailbox locks)
+	{
+		ms := startMemServer([]string{"A", "C"}, false)
+		setup := ms.dial(0)
+		setup.rc.cmd("LOGIN u p")
+		a, c := ms.dial(1), ms.dial(2)
+		for _, mc := range []*memConn{a, c} {
+			mc.grace = 45 * time.Second
+			mc.rc.cmd("LOGIN u p")
+		}
+		a.rc.cmd("SELECT A")
+		c.rc.cmd("SELECT C")
+		setup.rc.cmd("SELECT A")
+		var hdr strings.Builder
+		for i := 0; i < 300; i++ {
+			fmt.Fprintf(&hdr, "X-Filler-%d: %s\r\n", i, strings.Repeat("v", 60))
+		}
+		rounds := h.Pick(60, 300)
+		if os.Getenv("VERIF_RACE") != "" {
+			rounds = h.Pick(40, 120)
+		}
+		desc := map[string]interface{}{"scenario": "envelope-of-fresh-copy", "rounds": rounds}
+		h.InFlight(desc)
+		for r := 0; r < rounds; r++ {
+			msg := fmt.Sprintf("From: a%d@example.org\r\nTo: b@example.org\r\nSubject: round %d\r\nDate: Tue, 10 Mar 2020 10:00:00 +0000\r\n%s\r\nbody\r\n", r, r, hdr.String())
+			if _, _, tagged, err := setup.rc.interactive(fmt.Sprintf("APPEND A {%d}", len(msg)), []string{msg + "\r\n"}); err != nil || !isOK(tagged) {
+				h.Fail("setup", fmt.Sprintf("APPEND: %v %s", err, tagged), desc)
+				break
+			}
+			if _, tagged, _ := setup.rc.cmd("COPY * C"); !isOK(tagged) {
+				h.Fail("setup", "COPY: "+tagged, desc)
+				break
+			}
+			var wg sync.WaitGroup
+			stalledAt := ""
+			var smu sync.Mutex
+			for _, mc := range []*memConn{a, c} {
+				wg.Add(1)
+				go func(mc *memConn) {
+					defer wg.Done()
+					if _, _, stall, _ := mc.run("FETCH * (ENVELOPE)", 6*time.Second); stall {
+						smu.Lock()
+						stalledAt = fmt.Sprintf("session %d: FETCH * (ENVELOPE) got no tagged completion", mc.id)
+						smu.Unlock()
+					}
+				}(mc)
+			}
+			wg.Wait()
+			if stalledAt != "" {
+				h.Fail("stall:envelope-of-fresh-copy", stalledAt, desc)
+				break
+			}
+		}
+		if strings.Contains(ms.log.String(), "panic") {
+			h.Fail("server-panic", firstLine(ms.log.String()), desc)
+		}
+		h.Eval("envelope-of-fresh-copy")
+		h.Hist("scenario:targeted")
+		for _, mc := range []*memConn{setup, a, c} {
+			mc.rc.Close()
+		}
+		ms.Close()
+	}
+
 	// random mixes
 	verbs := []string{"SELECT A", "SELECT B", "SELECT C", "EXAMINE A", "FETCH 1:* FLAGS", "UID FETCH 1:* (FLAGS)", "COPY 1:3 A", "COPY 1:3 B", "COPY 1 C",
 		"MOVE 1 A", "MOVE 1 B", "UID MOVE 1:2 C", `STORE 1:* +FLAGS (\Deleted)`, `STORE 1 -FLAGS (\Deleted)`, "EXPUNGE", "UID EXPUNGE 1:*", "NOOP", "CLOSE", "UNSELECT",
